@@ -2969,7 +2969,11 @@ where
         level < MAX_NESTING_DEPTH,
         "nesting depth exceeds limit of {MAX_NESTING_DEPTH}"
     );
-    let compact = config.compact;
+    // An empty indent unit (`--indent 0`) means compact output, exactly as
+    // `output::format_json_impl` (the materialized route) and real jq treat
+    // it -- without this the lazy route printed newline-separated,
+    // unindented text (`[\n1\n]`) for the same flags.
+    let compact = config.compact || config.indent_string.is_empty();
     let indent = &config.indent_string;
     let current_indent = if compact {
         String::new()
